@@ -369,6 +369,12 @@ func c01Sched(name string, bound int, deadline time.Time, only []int) c01SchedRe
 			w.Store.Complete(b.ID, "u-alice")
 			return []sched.Body{cb(a.ID), cb(b.ID)}
 		}
+		if strings.Contains(name, "same AuthnRequest ID") {
+			// the SP reused its (requester-chosen) AuthnRequest ID: two stored requests, one still pending, one done
+			b := w.Store.Inject(world.AuthReq{AppID: "app-a", ACS: "https://sp-a.example/acs/post", Binding: binding, RequestID: "_a", RelayState: "ra"})
+			w.Store.Complete(b.ID, "u-bob")
+			return []sched.Body{cb(a.ID), cb(b.ID)}
+		}
 		if !three {
 			return []sched.Body{cb(a.ID), func() any { w.Store.Complete(a.ID, "u-alice"); return nil }}
 		}
@@ -446,7 +452,9 @@ type c01ReplayT struct {
 }
 
 var c01SchedScenarios = []string{"callback(i) || complete(i)", "callback(i) || complete(i) [redirect]", "callback(i) || callback(j) || complete(j)",
-	"callback(pending i, same user and application) || callback(done j)"}
+	"callback(pending i, same user and application) || callback(done j)",
+	"callback(pending i) || callback(done j) [both stored requests carry the same AuthnRequest ID, RelayState and consumer URL]",
+	"callback(pending i) || callback(done j) [same AuthnRequest ID, redirect]"}
 
 func init() { Registry["C01"] = runC01 }
 
@@ -465,7 +473,7 @@ func runC01(ctx Ctx) int {
 		}
 	}
 	run := ev.NewRun("C01")
-	run.Rule = "E2: breadth-first search over event histories on the real provider: events = SSO acceptance (POST/Redirect), injected pending records (binding POST/Redirect/none/Artifact x consumer URL registered/empty, and records reusing the first session's SP-chosen request ID and RelayState), login completion of any session, callback of any session in 19 id placements / spellings (GET query, POST body, body and query naming different sessions, two id values, id in a header only, padded, upper-cased, urn:uuid: prefix, braces, dash-less, an id that is the percent-encoding of the stored id (wholly / first character), NUL / LF / ?query / #fragment suffix, + prefix, ;-separated pair, multipart form; stored ids are UUID-shaped) plus unknown / empty / absent id, and arming a one-shot storage failure (user info, entity lookup, signing key error / key without certificate / garbage certificate / zero key / certificate of another key; an error returned together with a usable value by the key, user-info, entity and request lookups); states are deduplicated by a canonical key (sessions in creation order: binding, consumer-URL-empty, done, user; armed fault) and every transition, including self-loops, is executed by replaying the shortest history on a fresh provider and judged; every state is additionally extended by callback(k) ; callback(any) and by callback(k) ; arm(any storage failure) ; callback(j) so that state kept inside the IdP between requests shows. E3 (controlled scheduler; scheduling points before every statement of every repository function, at every function entry and storage call): callback(i) || complete(i) with unbounded preemptions (both bindings), callback(i) || callback(j) || complete(j) at preemption bound 2 (quick) / 3 (thorough) at function-entry granularity and at bound 1 / 2 at statement granularity, two callbacks of one user (one pending, one done) at bound 2"
+	run.Rule = "E2: breadth-first search over event histories on the real provider: events = SSO acceptance (POST/Redirect), injected pending records (binding POST/Redirect/none/Artifact x consumer URL registered/empty, and records reusing the first session's SP-chosen request ID and RelayState), login completion of any session, callback of any session in 19 id placements / spellings (GET query, POST body, body and query naming different sessions, two id values, id in a header only, padded, upper-cased, urn:uuid: prefix, braces, dash-less, an id that is the percent-encoding of the stored id (wholly / first character), NUL / LF / ?query / #fragment suffix, + prefix, ;-separated pair, multipart form; stored ids are UUID-shaped) plus unknown / empty / absent id, and arming a one-shot storage failure (user info, entity lookup, signing key error / key without certificate / garbage certificate / zero key / certificate of another key; an error returned together with a usable value by the key, user-info, entity and request lookups); states are deduplicated by a canonical key (sessions in creation order: binding, consumer-URL-empty, done, user; armed fault) and every transition, including self-loops, is executed by replaying the shortest history on a fresh provider and judged; every state is additionally extended by callback(k) ; callback(any) and by callback(k) ; arm(any storage failure) ; callback(j) so that state kept inside the IdP between requests shows. E3 (controlled scheduler; scheduling points before every statement of every repository function, at every function entry and storage call): callback(i) || complete(i) with unbounded preemptions (both bindings), callback(i) || callback(j) || complete(j) at preemption bound 2 (quick) / 3 (thorough) at function-entry granularity and at bound 1 / 2 at statement granularity, two callbacks of one user (one pending, one done) at bound 2, a pending and a done stored request that carry the same AuthnRequest ID called back at the same time (both bindings) at bound 1 (quick) / 2 (thorough)"
 	run.Assume = []string{"<= 2 sessions and depth 5 (quick), <= 3 sessions and depth 6 (thorough); the canonical key keeps, of request ID and RelayState, only whether a session reuses the first session's values"}
 	if ctx.Replay != "" {
 		var rp c01ReplayT
@@ -627,9 +635,9 @@ func runC01(ctx Ctx) int {
 		fine  bool
 		bound int
 	}
-	jobs := []schedJob{{0, true, -1}, {1, true, -1}, {2, false, bound3}, {2, true, bound3 - 1}, {3, true, 2}}
+	jobs := []schedJob{{0, true, -1}, {1, true, -1}, {2, false, bound3}, {2, true, bound3 - 1}, {3, true, 2}, {4, true, 1}, {5, true, 1}}
 	if run.Tier == "thorough" {
-		jobs = append(jobs, schedJob{3, false, 3})
+		jobs = append(jobs, schedJob{3, false, 3}, schedJob{4, true, 2}, schedJob{5, true, 2})
 	}
 	var jobDesc []string
 	_, c2 := parallel(len(jobs), deadline, func(ji int) {
